@@ -1,7 +1,131 @@
-(* C16 — the property theorems, and nothing else. *)
+(* C16 — the property theorems, and nothing else.
+
+   [reach l x sz om es] is the state of a pool-backed file created by
+   NewFile(isExecutable = x, size = sz, shareAccess = om) behind link layer
+   [l] after the event sequence [es].  One event is one critical section
+   under the file's lock, so [es] ranges over every interleaving of
+   open/close/link/unlink/read/write/truncate/allocate/setattr/seek,
+   uploads, frozen handles, stat calls and the wake-ups of parked calls,
+   with every scripted I/O failure. *)
 From VF Require Import File.Model File.Spec File.Proofs.
 
-Theorem open_after_release_is_stale : forall s m,
-  rc s = 0%N -> step s (EOpen m) = (s, OAttrs SStale None).
-Proof. exact open_after_release_stale. Qed.
-Print Assumptions open_after_release_is_stale.
+(* The monitor is the proved predicate: P (Spec.p_step, evaluated by Corr.v
+   on implementation traces) holds on every step of every model trace. *)
+Theorem trace_ok_all : forall l x sz om es,
+  trace_ok (observe (init l x sz om)) (trace_of (init l x sz om) es) = true.
+Proof. exact trace_all_ok. Qed.
+Print Assumptions trace_ok_all.
+
+(* referenceCount = [linked] + sum of popcounts of the share masks still
+   held + frozen readers / uploads in progress; frozenDescriptorsCount and
+   writableDescriptorsCount are exactly the frozen handles and the held
+   masks with the write bit. *)
+Theorem refcount_exact : forall l x sz om es, let s := reach l x sz om es in
+  rc s = (base_links (lay s) (links s) + held_count (held s) + nholding (thr s))%N
+  /\ fz s = nholding (thr s) /\ wr s = writers_of (held s).
+Proof. exact refcount_exact_l. Qed.
+Print Assumptions refcount_exact.
+
+(* The pool file has been closed once iff the count is zero, and Close is
+   called in exactly the step that takes the count from non-zero to zero. *)
+Theorem closed_exactly_once_at_zero : forall l x sz om es e,
+  let s := reach l x sz om es in let s' := fst (step s e) in
+  closes s = (if rc s =? 0 then 1 else 0)%N
+  /\ closes s' = (closes s + (if negb (rc s =? 0) && (rc s' =? 0) then 1 else 0))%N.
+Proof. exact closed_once_l. Qed.
+Print Assumptions closed_exactly_once_at_zero.
+
+(* After zero: every event (a case split over every Virtual* method, Link,
+   the Apply* operations, and the wake-up of calls that were parked) leaves
+   the released pool file untouched, does not panic, stays at zero, and
+   reports failure (VirtualGetAttributes has no status to report). *)
+Theorem no_use_after_release : forall l x sz om es e, let s := reach l x sz om es in
+  rc s = 0%N ->
+  let s' := fst (step s e) in let out := snd (step s e) in
+  calls s' = calls s /\ cac s' = 0%N /\ rc s' = 0%N /\ out <> OPanic /\ (out_ok out = false \/ e = EGetAttr).
+Proof. exact no_use_after_release_l. Qed.
+Print Assumptions no_use_after_release.
+
+(* A frozen handle keeps the file referenced (so frozenFileBackedFile.ReadAt /
+   GetNextRegionOffset never see the nil pool file), a referenced file is
+   not closed, and no pool-file method is ever called after Close. *)
+Theorem frozen_implies_referenced : forall l x sz om es, let s := reach l x sz om es in
+  ((0 < fz s)%N -> (0 < rc s)%N) /\ ((0 < rc s)%N -> closes s = 0%N) /\ cac s = 0%N.
+Proof. exact frozen_implies_referenced_l. Qed.
+Print Assumptions frozen_implies_referenced.
+
+(* While any frozen reader exists no event changes content or size ... *)
+Theorem frozen_content_stable : forall l x sz om es e, let s := reach l x sz om es in
+  (0 < fz s)%N -> bytes (fst (step s e)) = bytes s /\ size (fst (step s e)) = size s.
+Proof. exact frozen_content_stable_l. Qed.
+Print Assumptions frozen_content_stable.
+
+(* ... hence the digest an upload returns is the hash of the file's content,
+   and what the CAS read through the buffer is that content (a prefix of it
+   if the CAS stopped early). *)
+Theorem upload_digest_matches : forall l x sz om es e d err recv complete,
+  let s := reach l x sz om es in
+  snd (step s e) = OUpDone (Some d) err recv complete ->
+  exists fn, d = DBytes fn (bytes s)
+    /\ recv = firstn (length recv) (bytes s)
+    /\ (complete = true -> recv = bytes s).
+Proof. exact upload_digest_l. Qed.
+Print Assumptions upload_digest_matches.
+
+(* The cached digest, when present, is the digest of the current content
+   bytes[0..size). *)
+Theorem cache_invalidated : forall l x sz om es, let s := reach l x sz om es in
+  nlen (bytes s) = size s /\ (cached s = None \/ exists fn, cached s = Some (DBytes fn (bytes s))).
+Proof. exact cache_invalidated_l. Qed.
+Print Assumptions cache_invalidated.
+
+(* Liveness as enabledness + progress (partial: that the Go scheduler runs
+   the woken goroutine is not provable here): a call parked in
+   lockMutatingData while no frozen reader exists, or in
+   waitAndOpenReadFrozen while no writer exists, has had its channel closed;
+   its wake event is enabled and the call does not park again. *)
+Theorem wake_enabled : forall l x sz om es t, let s := reach l x sz om es in
+  (forall m g, tlookup t (thr s) = Some (CMut m g) -> fz s = 0%N ->
+     (g < ugen s)%N /\ snd (step s (EWakeMut t)) <> ONone /\ snd (step s (EWakeMut t)) <> OParked)
+  /\ (forall k g, tlookup t (thr s) = Some (CWait k g) -> wr s = 0%N ->
+     (g < wgen s)%N /\ snd (step s (EWakeWait t false)) <> ONone /\ snd (step s (EWakeWait t false)) <> OParked).
+Proof. exact wake_enabled_l. Qed.
+Print Assumptions wake_enabled.
+
+(* ---- non-vacuity ------------------------------------------------------------ *)
+
+Open Scope N_scope.
+
+(* An upload that waits for the writer, freezes, hashes, and is read by the
+   CAS in two chunks while a second writer is parked behind it. *)
+Definition ex_upload : list event :=
+  [ EMut 1 (MWriteOp 0 [7; 8; 9] None);
+    EFreeze 2 (KUp 0);                   (* parks: a writer is open *)
+    EClose MRW;                          (* closes noMoreWritersWakeup *)
+    EWakeWait 2 false; ERun 2 RGet; ERun 2 (RHash false); ERun 2 RStore;
+    EOpen MWrite;
+    EMut 3 (MWriteOp 1 [1] None);        (* parks: frozen *)
+    ERun 2 (RPutRead 2); ERun 2 (RPutRead 5) ].
+
+Example ex_upload_result :
+  snd (step (reach LNfs false 0 (Some MRW) ex_upload) (ERun 2 (RPutEnd true)))
+  = OUpDone (Some (DBytes 0 [7; 8; 9])) ENone [7; 8; 9] true.
+Proof. vm_compute. reflexivity. Qed.
+
+Example ex_upload_parked :
+  let s := reach LNfs false 0 (Some MRW) ex_upload in
+  (rc s, fz s, wr s, nsleep (thr s), cached s) = (3, 1, 1, 1, Some (DBytes 0 [7; 8; 9])).
+Proof. vm_compute. reflexivity. Qed.
+
+(* the parked writer then runs and invalidates the cached digest *)
+Example ex_upload_then_write :
+  let s := reach LNfs false 0 (Some MRW) (ex_upload ++ [ERun 2 (RPutEnd true); EWakeMut 3]) in
+  (bytes s, cached s, fz s) = ([7; 1; 9], None, 0).
+Proof. vm_compute. reflexivity. Qed.
+
+(* the last reference goes away, the pool file is closed once, later calls are stale *)
+Example ex_release :
+  let s := reach LFuse false 3 (Some MRead) [EUnlink; EClose MRead] in
+  (rc s, closes s, snd (step s (ERead 0 2 false)), snd (step s (EMut 1 (MSetSize 0 None false))))
+  = (0, 1, ORead SStale 0 false [], OAttrs SStale None).
+Proof. vm_compute. reflexivity. Qed.
